@@ -70,7 +70,7 @@ static std::vector<Op> make_script(Rng& r)
 	for (int i = 0; i < n; ++i) {
 		bool ctl = shape == 0 ? (i > 0 && r.chance(50)) : shape == 1 ? (i == 0 || r.chance(40)) : shape == 2 ? (i % 2 == 1) : r.chance(45);
 		if (!ctl && r.chance(6) && i > 0) { s.push_back({2, 0, 0, "", 0, false}); continue; }
-		if (ctl) s.push_back({1, 1 + (unsigned)r.below(1000), 1 + (unsigned)r.below(1000), "", 0, false});
+		if (ctl) s.push_back({1, r.chance(15) ? 0u : 1 + (unsigned)r.below(1000), r.chance(15) ? 0u : 1 + (unsigned)r.below(1000), "", 0, false});	// 0 is a legal value too (reset)
 		else {
 			std::string b((size_t)r.range(1, 90), 0);
 			for (auto& ch : b) ch = (char)r.range(33, 126);
